@@ -293,6 +293,7 @@ class World:
         self.log = EventLog()
         self.data = make_content(c["size"], c["content"]) if not c["metadata_only"] else b""
         self.sandbox: Path | None = None
+        self._raw_replace = False
         self._build_fs()
         self.call_hook = None
         self.last_request = None
@@ -359,7 +360,16 @@ class World:
         if isinstance(inner, MemFilestore):
             inner.put(path, data)
         else:
-            Path(path).write_bytes(data)
+            p = Path(path)
+            # an existing file is alternately rewritten in place and replaced by a new file of the same name (as editors and atomic
+            # writers do): whoever kept the old file open, or remembered something about it, then sees the old content
+            if p.exists() and self._raw_replace:
+                tmp = p.with_name(p.name + ".new~")
+                tmp.write_bytes(data)
+                os.replace(tmp, p)
+            else:
+                p.write_bytes(data)
+            self._raw_replace = not self._raw_replace
 
     def read_raw(self, side: str, path: Path) -> bytes | None:
         """Reads a file *behind* the filestore under test (plain open / dict access)."""
